@@ -250,7 +250,7 @@ theorem cnt_bind {α β : Type} {J J' J'' : St → Prop} {p : Path} {m : M α} {
 
 theorem cnt_mono {α : Type} {J J' : St → Prop} {p : Path} {m : M α} {a n : Nat} (hn : a ≤ n)
     (h : Tr J J' (Cnt p a) m) : Tr J J' (Cnt p n) m :=
-  tr_weaken h (fun l hl => Nat.le_trans hl hn)
+  tr_weaken h (fun _ hl => Nat.le_trans hl hn)
 
 theorem inner_noBE (L : Loc) (p : Path) : Inner (JC L) (NoBE p) :=
   (inner_JC L (fun _ _ _ => True)).mono (fun _ _ => rfl)
@@ -318,7 +318,7 @@ theorem body_at_most_once (P : Proj) (insts : Insts) (w : Nat) (t : TaskId) (run
       have ha := cnt_of_all pa
       have hc := cnt_of_all pc
       unfold Cnt at *
-      simp only [List.filter_cons, List.filter_append, List.length_append, isBodyEnter] at *
+      simp only [List.filter_cons, List.filter_append, isBodyEnter] at *
       simp
       omega
     · -- skipped or disabled: the shape theorem gives a single test-level event
@@ -360,5 +360,42 @@ theorem skipped_or_disabled_runs_nothing (P : Proj) (insts : Insts) (w : Nat) (t
       · exact absurd h hd
     · obtain ⟨r, tm, hl⟩ := hs
       exact ⟨⟨r, tm, by rw [hl]; simp [hd]⟩, by rw [hl]; simp [isBodyEnter]⟩
+
+/-! ### Non-vacuity: the theorems instantiated on the concrete project `Sample.PA` (premises hold by `rfl`) -/
+
+open Sample in
+/-- the enabled test `s.t`, run with an interrupt after 3 API acts: started and ended, once -/
+example : (runTask PA Insts.empty 0 ⟨.test, ["s", "t"]⟩ true false [] (some 3) none).items.filterMap testLevel =
+    [.start ["s", "t"], .end_ ["s", "t"]] := by
+  have := test_terminal_pattern PA Insts.empty 0 ⟨.test, ["s", "t"]⟩ true false [] (some 3) none rfl svA hsvA tA htA
+  simpa [testDisabledNow, tA, svA] using this
+
+open Sample in
+/-- the same test skipped: exactly one `skipped` -/
+example : (runTask PA Insts.empty 0 ⟨.test, ["s", "t"]⟩ false true [] none none).items.filterMap testLevel =
+    [.skipped ["s", "t"]] := by
+  have := test_terminal_pattern PA Insts.empty 0 ⟨.test, ["s", "t"]⟩ false true [] none none rfl svA hsvA tA htA
+  simpa [testDisabledNow, tA, svA] using this
+
+open Sample in
+/-- the disabled test `s.u`, "run": exactly one `disabled`, and nothing is executed -/
+example : (runTask PA Insts.empty 0 ⟨.test, ["s", "u"]⟩ true false [] none none).items.filterMap testLevel =
+    [.disabled ["s", "u"]] := by
+  have := test_terminal_pattern PA Insts.empty 0 ⟨.test, ["s", "u"]⟩ true false [] none none rfl svA hsvB tB htB
+  simpa [testDisabledNow, tB, svA, PA] using this
+
+open Sample in
+example : (runTask PA Insts.empty 0 ⟨.test, ["s", "u"]⟩ true false [] none none).items.filter (isBodyEnter ["s", "u"]) = [] :=
+  (skipped_or_disabled_runs_nothing PA Insts.empty 0 ⟨.test, ["s", "u"]⟩ true false [] none none rfl svA hsvB tB htB
+    (Or.inr rfl)).2
+
+open Sample in
+example : ∃ tm, (runTask PA Insts.empty 0 ⟨.begin, ["s"]⟩ true false [] none none).items =
+    [.ev (.suiteStart ["s"] (mdOf "s" 0) tm)] :=
+  suite_begin_items PA Insts.empty 0 ⟨.begin, ["s"]⟩ true false [] none none rfl svA hsvS
+
+/-- the count bound is tight in the model: a body that is entered is counted -/
+example : ([Item.user 0 (.body ["s", "t"]) "enter", .user 0 (.body ["s", "t"]) "exit"].filter (isBodyEnter ["s", "t"])).length = 1 := by
+  decide
 
 end LccModel.C01Run
